@@ -21,6 +21,16 @@ FIXED_TEXTS = [
 ]
 
 
+# legal texts re-parsed after every block of the long in-process sequences (history independence)
+SENTINELS = [
+    FIXED_TEXTS[0],
+    "interface a.b\nmethod M(id: int) -> (r: [string]?[](a: int, b: (x, y)))",
+    "interface a.b\ntype T (a: int)",
+    "# c\ninterface x.y\n# d\nerror E (# e\n m: string)\n",
+    "interface a.b\ntype E (one, two)\nmethod N() -> ()",
+]
+
+
 def gen_cases(ck):
     rng = ck.rng
     quick = ck.tier == "quick"
@@ -42,6 +52,8 @@ def gen_cases(ck):
                 add(bytes.fromhex(c["text"]), "corpus%d" % len(cases),
                     g.from_wire(c["expect"]) if c.get("expect") else None)
 
+    for t in SENTINELS:
+        add(t.encode(), "sentinel")
     laid = []   # (pieces, text) of legal layouts, for mutation and truncation
     # (a) grammar-driven texts in random legal layout: the parser must build exactly the tree
     n_legal = 700 if quick else 12000
@@ -63,6 +75,22 @@ def gen_cases(ck):
         src = {"name": b"a.b", "comments": [], "members": [("method", {"name": b"M", "inputs": [
             {"name": b"x", "ty": t, "comments": []}], "outputs": [], "comments": []})]}
         add(g.text_of(g.Layout(rng, "legal").interface(src)), "types", g.partition(src))
+    # legal layouts dense in inline types, with comment lines in the layout positions inside them whose
+    # text holds arbitrary non-ASCII code points followed by text that would parse as IDL
+    for i in range(150 if quick else 2500):
+        src = g.gen_interface(rng, max_members=3, max_depth=3, pc=0.1)
+        for kind, m in src["members"]:
+            for key in ("fields", "inputs", "outputs"):
+                for f in m.get(key, []):
+                    if f["ty"]["t"] not in ("struct", "enum") and rng.random() < 0.6:
+                        f["ty"] = g.gen_type(rng, 2, True)
+        L = g.Layout(rng, "legal")
+        L.drop_p = 0.7
+        add(g.text_of(L.interface(src)), "legaluc", g.strip_inline_comments(g.partition(src)))
+    # every special code point (General Punctuation block, NEL, NBSP, BOM, neighbours in UTF-8) inside a
+    # comment in every layout position, followed by text that would parse as IDL (deterministic)
+    for k, t in g.uc_comment_cases():
+        add(t, "uc_" + k)
     # (a') liberal layouts: comments in every `_` position of the grammar; no expectation
     for i in range(200 if quick else 3000):
         src = g.gen_interface(rng, max_members=4, max_depth=3, pc=0.2)
@@ -119,6 +147,121 @@ def small_types(depth):
     return allt
 
 
+def seq_cases(ck, items):
+    """Long mixed sequences parsed inside ONE process each: up to `per` rejected texts of every
+    generator class, interleaved with accepted texts; the sentinel legal texts are re-parsed after
+    every block, and the whole sequence is run again in reverse order, so every text is parsed at
+    least twice at different points. Sequence 0 mixes the classes, sequence 1 keeps each class
+    together (long runs of the same kind of fault)."""
+    rng = ck.rng
+    per = 400 if ck.tier == "quick" else 3000
+    sent = [(c, r) for c, r in items if c["tag"] == "sentinel"]
+    by_tag = {}
+    for c, r in items:
+        if r["class"] == "err" and c["tag"] != "sentinel":
+            by_tag.setdefault(c["tag"].rstrip("0123456789"), []).append((c, r))
+    rej = []
+    for tag in sorted(by_tag):
+        l = by_tag[tag]
+        rng.shuffle(l)
+        rej.append(l[:per])
+    acc = [(c, r) for c, r in items if r["class"] == "ok" and c["tag"] != "sentinel"]
+    rng.shuffle(acc)
+    acc = acc[:(600 if ck.tier == "quick" else 6000)]
+    seqs = []
+    for variant in (0, 1):
+        pool = sent + [x for l in rej for x in l] + acc
+        texts = [c["text"] for c, _ in pool]
+        expect = [r for _, r in pool]
+        ns = len(sent)
+        body = list(range(ns, len(pool)))
+        if variant == 0:
+            rng.shuffle(body)
+        order = list(range(ns))
+        for i in range(0, len(body), 60):
+            order += body[i:i + 60] + list(range(ns))
+        order = order + order[::-1]
+        seqs.append(({"id": variant, "op": "seq", "texts": texts, "order": order}, expect))
+    return seqs, {t: min(per, len(l)) for t, l in by_tag.items()}
+
+
+def strip_id(r):
+    return {k: v for k, v in r.items() if k != "id"}
+
+
+def seq_fails(ck, texts, order, expect):
+    """Run one sequence in one process; None when every parse of every text gives the result of
+    the main run, else a description of the first deviation."""
+    res = ck.harness_run("idl", [{"id": 0, "op": "seq", "texts": texts, "order": order}], shards=1)[0]
+    if res.get("crash") or res.get("class") != "seq":
+        return {"crash": res}
+    if res["n_diverge"]:
+        d = res["diverge"][0]
+        return {"kind": "two parses of the same text in one process differ", "pos": d["pos"], "index": d["index"],
+                "first": d["first"], "later": d["later"], "n_diverge": res["n_diverge"]}
+    for ix, (got, exp) in enumerate(zip(res["results"], expect)):
+        if got is not None and strip_id(got) != strip_id(exp):
+            pos = order.index(ix)
+            return {"kind": "the result in the sequence differs from the result of the same text parsed elsewhere",
+                    "pos": pos, "index": ix, "first": exp, "later": got, "n_diverge": 1}
+    return None
+
+
+def minimise_seq(ck, texts, order, expect, dev):
+    """Shrink a history-dependent sequence: keep the deviating text (first and last), drop chunks of
+    what lies between while the deviation persists."""
+    ix, pos = dev["index"], dev["pos"]
+    mid = [k for k in order[:pos] if k != ix]
+    runs = 0
+    chunk = max(1, len(mid) // 2)
+    while chunk >= 1 and runs < 60:
+        i, shrunk = 0, False
+        while i < len(mid) and runs < 60:
+            cand = mid[:i] + mid[i + chunk:]
+            runs += 1
+            if seq_fails(ck, texts, [ix] + cand + [ix], expect):
+                mid, shrunk = cand, True
+            else:
+                i += chunk
+        if chunk == 1 and not shrunk:
+            break
+        chunk = max(1, chunk // 2) if chunk > 1 else (1 if shrunk else 0)
+    used = sorted(set([ix] + mid))
+    remap = {k: j for j, k in enumerate(used)}
+    return {"op": "seq", "texts": [texts[k] for k in used], "order": [remap[k] for k in [ix] + mid + [ix]]}
+
+
+def history_check(ck, items):
+    seqs, rejected_by_class = seq_cases(ck, items)
+    parses = []
+    for case, expect in seqs:
+        dev = seq_fails(ck, case["texts"], case["order"], expect)
+        parses.append(len(case["order"]))
+        if dev and "crash" in dev:
+            ck.violation("harness crashed on a long in-process sequence", {"impl": dev["crash"]},
+                         tag="seqcrash%d" % case["id"], no_input=True)
+        elif dev:
+            small = minimise_seq(ck, case["texts"], case["order"], expect, dev)
+            txt = bytes.fromhex(case["texts"][dev["index"]]).decode("utf-8", "replace")
+            ck.violation("the parser is not a function of its input: %r is %s at first and %s after %d other "
+                         "parses in the same process (%s)" % (
+                             txt[:80], dev["first"].get("class"), dev["later"].get("class"),
+                             len(small["order"]) - 2, dev["kind"]),
+                         {"case": small, "deviation": dev,
+                          "texts": [bytes.fromhex(t).decode("utf-8", "replace") for t in small["texts"]][:40]},
+                         tag="hist%d" % case["id"])
+            break
+    ck.cov["history_independence"] = {
+        "sequences": len(seqs), "parses_in_one_process": parses,
+        "distinct_texts_per_sequence": [len(c["texts"]) for c, _ in seqs],
+        "every_text_parsed_at_least": 2, "sentinels": len(SENTINELS),
+        "sentinel_reparsed_after_every": 60,
+        "rejected_texts_by_class": rejected_by_class,
+        "rule": "each sequence runs in one process; all parses of a text must agree with each other and with "
+                "the result of the same text in the main run (which the model evaluation covers)",
+    }
+
+
 def render_case(c, r):
     tree = g.from_wire(r["tree"]) if r.get("class") == "ok" else None
     return "(mkP %s %d %s %s %s)" % (
@@ -161,6 +304,12 @@ def main():
     if not ok:
         ck.violation("harness does not build against /repo", {"log": log[-3000:]}, tag="build", no_input=True)
         ck.finish()
+    seq_replay = None
+    if ck.replay and cases and cases[0].get("op") == "seq":
+        # a history-dependence replay: run the sequence in one process, then judge every text alone
+        seq_replay = cases[0]
+        cases = [{"id": i, "op": "parse", "text": t, "tag": "seqtext", "expect": None}
+                 for i, t in enumerate(seq_replay["texts"])]
     results = ck.harness_run("idl", cases)
     ck.ran_correspondence = True
     items = []
@@ -170,6 +319,13 @@ def main():
                          no_input=True)
             continue
         items.append((c, r))
+    if seq_replay is not None:
+        dev = seq_fails(ck, seq_replay["texts"], seq_replay["order"], [r for _, r in items])
+        if dev:
+            ck.violation("the parser is not a function of its input (%s)" % dev.get("kind", "crash"),
+                         {"case": seq_replay, "deviation": dev}, tag="hist0")
+    elif not ck.replay:
+        history_check(ck, items)
     try:
         bad = ck.coq_eval("cases", HEADER, items, lambda it: render_case(it[0], it[1]), per_shard=120)
     except RuntimeError as e:
